@@ -11,7 +11,15 @@ lru_cache'd, quote_path_segment has a module dictionary):
   find  pyramid.traversal.find_resource(resource, path)
   tpi   traversal_path_info(path)        tp   traversal_path(path)
   quote quote_path_segment(segment, safe)   (fills the segment cache under several safe sets)
+  router the request through Router.__call__ (no routes): observation = the attributes written on the request
+         (read off request.__dict__ in a ContextFound subscriber), model = Model.router_traversal
+  route  the request through a Router whose application declares routes (`*traverse`, `{traverse}/*subpath`,
+         `traverse=` predicate, `{subpath}`); the match dictionary comes from REAL route matching (the routes mapper
+         is asked in to_wire, as an oracle) and is what the model's traverser receives
+
+thorough tier: additionally an EXHAUSTIVE small-scope sweep (see sweep_cases), reported through evidence_extra.
 """
+import itertools
 import os
 
 from harness.common import facts as F
@@ -239,8 +247,35 @@ def gen_api(rng, tree, kind):
     return {'k': kind, 'start': start, 'path': path}
 
 
+ROUTES = [('r_star', '/r/*traverse', None), ('r_sub', '/s/{traverse}/*subpath', None),
+          ('r_pred', '/t/{a}/{b}', '/{a}/{b}'), ('r_pred_sub', '/u/{a}/*subpath', '/{a}'),
+          ('r_plain', '/v/{x}', None), ('r_strsub', '/w/{subpath}', None), ('r_both', '/x/{subpath}/*traverse', None)]
+
+
+def gen_route_op(rng, tree):
+    segs = gen_segments(rng, tree)
+    prefix = rng.choice(['/r', '/r', '/s', '/t', '/u', '/v', '/w', '/x', '/r', '/nomatch'])
+    if prefix in ('/s', '/u', '/x') and rng.random() < 0.7:
+        segs = (segs[:1] or [rng.choice(NAMES)]) + gen_segments(rng, None)
+    elif prefix == '/t' and rng.random() < 0.8:
+        segs = (segs + [rng.choice(NAMES), rng.choice(NAMES)])[:2]
+    elif prefix in ('/v', '/w') and rng.random() < 0.8:
+        segs = (segs + [rng.choice(NAMES)])[:1]
+    pi = prefix + join_plain(rng, segs)
+    if rng.random() < 0.04:
+        pi = wsgi(pi) + rng.choice(['\xff', '\xc3'])
+    else:
+        pi = wsgi(pi)
+    return {'k': 'route', 'path_info': pi, 'vroot': gen_vroot(rng, tree)}
+
+
 def gen_op(rng, tree):
     r = rng.random()
+    if r < 0.10:
+        o = gen_req(rng, tree)
+        return {'k': 'router', 'path_info': o['path_info'], 'vroot': o['vroot']}
+    if r < 0.24:
+        return gen_route_op(rng, tree)
     if r < 0.56:
         return gen_req(rng, tree)
     if r < 0.76:
@@ -276,7 +311,7 @@ def gen_case(rng):
             ops.append(rng.choice(ops))                       # repeated key
         elif ops and r < 0.25:
             o = dict(rng.choice(ops))                         # same path under another vroot / entry
-            if o['k'] == 'req':
+            if o['k'] in ('req', 'router', 'route'):
                 o['vroot'] = gen_vroot(rng, tree)
             ops.append(o)
         else:
@@ -291,9 +326,93 @@ def gen_case(rng):
     return {'tree': tree, 'ops': ops}
 
 
+# ---- exhaustive small-scope sweep (thorough tier)
+SWEEP_VOCAB = ['a', 'b', 'zz', '..', '.', '@@a']
+SWEEP_VROOTS = [None, '/', '/a', '/a/b']
+SWEEP_NAMES = ['a', 'b']
+SWEEP_MAX_NODES = 4
+SWEEP_MAX_SEGS = 4
+SWEEP_CHUNK = 311
+_SWEEP = {'trees': 0, 'cases': 0, 'operations': 0, 'complete': False}
+
+
+def _forests(n, names):
+    """all lists of (name, subtree) with distinct names from `names` (in that order) and n nodes in total"""
+    if n == 0:
+        yield []
+        return
+    if not names:
+        return
+    first, rest = names[0], names[1:]
+    yield from _forests(n, rest)                       # name not used
+    for k in range(1, n + 1):                          # subtree under `first` has k nodes
+        for sub in _trees(k):
+            for others in _forests(n - k, rest):
+                yield [[first, sub]] + others
+
+
+def _trees(n):
+    """all trees with exactly n nodes: a childless node is a leaf (None) or an empty folder ([])"""
+    if n == 1:
+        yield None
+        yield []
+        return
+    for f in _forests(n - 1, SWEEP_NAMES):
+        if f:
+            yield f
+
+
+def sweep_trees():
+    for n in range(1, SWEEP_MAX_NODES + 1):
+        yield from _trees(n)
+
+
+def sweep_paths():
+    for k in range(0, SWEEP_MAX_SEGS + 1):
+        for segs in itertools.product(SWEEP_VOCAB, repeat=k):
+            yield '/' + '/'.join(segs)
+
+
+def sweep_cases():
+    """every tree with <= 4 nodes (child names from {a, b}, childless nodes as leaf or empty folder) x every
+    PATH_INFO of <= 4 segments over the 6-segment vocabulary x 4 virtual roots; each traversal direct and through
+    the Router"""
+    paths = list(sweep_paths())
+    _SWEEP.update(trees=0, cases=0, operations=0, complete=False)
+    for tree in sweep_trees():
+        _SWEEP['trees'] += 1
+        for vr in SWEEP_VROOTS:
+            for i in range(0, len(paths), SWEEP_CHUNK):
+                ops = [{'k': 'req', 'path_info': pth, 'md': None, 'vroot': vr} for pth in paths[i:i + SWEEP_CHUNK]]
+                _SWEEP['cases'] += 1
+                _SWEEP['operations'] += len(ops)
+                yield {'tree': tree, 'ops': ops, 'tag': 'sweep'}
+    _SWEEP['complete'] = True
+
+
 def generate(rng, tier, n):
+    if tier == 'thorough' and n >= 50000:
+        yield from sweep_cases()
     for _ in range(n):
         yield gen_case(rng)
+
+
+def evidence_extra(stats, tier):
+    if not _SWEEP['complete']:
+        return {}
+    clean = not stats.get('disagreements') and not stats.get('violations')
+    ran = stats.get('kinds', {}).get('sweep-case', 0)
+    return {'exhaustive_subruns': [{
+        'what': 'all resource trees with <= %d nodes (child names from %r, childless nodes as leaf and as empty folder) x '
+                'all PATH_INFO of <= %d segments over the vocabulary %r x virtual roots %r; every traversal observed '
+                'directly (ResourceTreeTraverser) and through Router.__call__, compared with the extracted model and '
+                'judged by the extracted specification' % (SWEEP_MAX_NODES, SWEEP_NAMES, SWEEP_MAX_SEGS, SWEEP_VOCAB,
+                                                           SWEEP_VROOTS),
+        'trees': _SWEEP['trees'], 'cases': _SWEEP['cases'], 'cases_evaluated': ran,
+        'operations': _SWEEP['operations'],
+        'exhaustive': bool(clean and ran == _SWEEP['cases']),
+        'outcome': 'no disagreement, no violation (known finding C02-traversed-under-vroot aside)' if clean
+                   else 'see violations / disagreements of this run'}]}
 
 
 def _valid_tree(t):
@@ -313,7 +432,7 @@ def _valid_path(p):
 
 def valid(case):
     try:
-        if sorted(case) != ['ops', 'tree'] or not _valid_tree(case['tree']) or not case['ops']:
+        if sorted(k for k in case if k != 'tag') != ['ops', 'tree'] or not _valid_tree(case['tree']) or not case['ops']:
             return False
         for o in case['ops']:
             k = o['k']
@@ -329,6 +448,13 @@ def valid(case):
                         return False
                     if not all(_valid_path(v) for v in o['md'].values()):
                         return False
+            elif k in ('router', 'route'):
+                if sorted(o) != ['k', 'path_info', 'vroot']:
+                    return False
+                if not (o['path_info'] is None or isinstance(o['path_info'], str)):
+                    return False
+                if not (o['vroot'] is None or isinstance(o['vroot'], str)):
+                    return False
             elif k in ('api', 'find'):
                 if sorted(o) != ['k', 'path', 'start'] or not _valid_path(o['path']):
                     return False
@@ -356,19 +482,29 @@ def shrinks(case):
     """drop operations, prune the tree, then the generic structural shrinks"""
     from harness.common.main import generic_shrinks
     ops = case['ops']
-    for i in range(len(ops)):
-        if len(ops) > 1:
-            yield {'tree': case['tree'], 'ops': ops[:i] + ops[i + 1:]}
-    for o in ops:
-        if len(ops) > 1:
-            yield {'tree': case['tree'], 'ops': [o]}
+    if len(ops) > 12:                                   # big histories (sweep chunks): bisect first
+        h = len(ops) // 2
+        yield {'tree': case['tree'], 'ops': ops[:h]}
+        yield {'tree': case['tree'], 'ops': ops[h:]}
+        q = max(1, len(ops) // 4)
+        for i in range(0, len(ops), q):
+            yield {'tree': case['tree'], 'ops': ops[:i] + ops[i + q:]}
+    else:
+        for i in range(len(ops)):
+            if len(ops) > 1:
+                yield {'tree': case['tree'], 'ops': ops[:i] + ops[i + 1:]}
+        for o in ops:
+            if len(ops) > 1:
+                yield {'tree': case['tree'], 'ops': [o]}
     for i, o in enumerate(ops):
         if o.get('start'):
             yield {'tree': case['tree'], 'ops': ops[:i] + [dict(o, start=[])] + ops[i + 1:]}
     # keep WSGI-shaped inputs WSGI-shaped: a shrink must not strip the leading '/' of a PATH_INFO /
     # virtual-root header (that would turn one failure into a different, less telling one)
     wf = _wsgi_shaped(case)
-    for cand in generic_shrinks(case):
+    if len(ops) > 12:
+        return
+    for cand in generic_shrinks({'tree': case['tree'], 'ops': ops}):
         if wf and not _wsgi_shaped(cand):
             continue
         yield cand
@@ -377,7 +513,7 @@ def shrinks(case):
 def _wsgi_shaped(case):
     try:
         for o in case['ops']:
-            if o.get('k') == 'req':
+            if o.get('k') in ('req', 'router', 'route'):
                 for key in ('path_info', 'vroot'):
                     v = o.get(key)
                     if isinstance(v, str) and v != '' and not v.startswith('/'):
@@ -411,6 +547,15 @@ def _op_wire(o):
             mdw = [_opt(_path_wire(md['traverse']) if 'traverse' in md else None),
                    _opt(_path_wire(md['subpath']) if 'subpath' in md else None)]
         return [0, _opt(o['path_info']), _opt(mdw), _opt(o['vroot'])]
+    if k == 'router':
+        return [6, _opt(o['path_info']), _opt(None), _opt(o['vroot'])]
+    if k == 'route':
+        md = route_oracle(o)
+        mdw = None
+        if md is not None:
+            mdw = [_opt(_path_wire(md['traverse']) if 'traverse' in md else None),
+                   _opt(_path_wire(md['subpath']) if 'subpath' in md else None)]
+        return [6, _opt(o['path_info']), _opt(mdw), _opt(o['vroot'])]
     if k == 'api':
         return [1, list(o['start']), _path_wire(o['path'])]
     if k == 'tpi':
@@ -429,9 +574,46 @@ def to_wire(case):
 def from_wire(case, raw):
     if raw == [['bad']] or not isinstance(raw, list) or len(raw) != len(case['ops']):
         return {'model': ['MODEL-BAD', raw], 'spec': None}
-    model = [r[0] for r in raw]
-    spec = [(r[1] if r[1] != [] else ['none']) for r in raw]
+    model = [_canon_attrs(r[0]) for r in raw]
+    spec = [(_canon_attrs(r[1]) if r[1] != [] else ['none']) for r in raw]
     return {'model': model, 'spec': spec}
+
+
+def _canon_attrs(o):
+    """attribute dictionaries are compared as sets of items"""
+    if isinstance(o, list) and len(o) == 2 and o[0] == 7:
+        return [7, sorted(o[1])]
+    return o
+
+
+def _env(o):
+    env = dict(_impl['base'])
+    if o['path_info'] is None:
+        del env['PATH_INFO']
+    else:
+        env['PATH_INFO'] = o['path_info']
+    if o['vroot'] is not None:
+        env[_impl['vh']] = o['vroot']
+    return env
+
+
+def _md_part(match):
+    return {k: (list(v) if isinstance(v, (tuple, list)) else v) for k, v in match.items() if k in ('traverse', 'subpath')}
+
+
+def route_oracle(o):
+    """the match dictionary the REAL routes mapper (incl. the traverse= pseudo predicate) produces for this
+    request; None when no route matches or matching itself raises (then PATH_INFO is undecodable and the
+    traverser meets the same error)"""
+    if not _impl:
+        setup('quick')
+    try:
+        info = _impl['mapper'](_impl['Request'](_env(o)))
+    except Exception:
+        return None
+    if info.get('route') is None:
+        return None
+    return _md_part(info['match'])
 
 
 # ------------------------------------------------------------------ implementation
@@ -492,12 +674,57 @@ def setup(tier):
         cur['seen'] = {'context': r.context, 'view_name': r.view_name, 'subpath': r.subpath,
                        'traversed': r.traversed, 'virtual_root': r.virtual_root,
                        'virtual_root_path': r.virtual_root_path, 'root': r.root}
+        cur['attrs'] = {k: v for k, v in r.__dict__.items() if k in ATTR_KEYS}
+        cur['matchdict'] = r.matchdict
 
     config = Configurator(root_factory=root_factory)
     config.add_subscriber(on_context, ContextFound)
     app = config.make_wsgi_app()
-    _impl.update(cur=cur, app=app, Request=Request, T=traversal,
+    config2 = Configurator(root_factory=root_factory)
+    config2.add_subscriber(on_context, ContextFound)
+    for name, pattern, trav in ROUTES:
+        if trav is None:
+            config2.add_route(name, pattern)
+        else:
+            config2.add_route(name, pattern, traverse=trav)
+    app2 = config2.make_wsgi_app()
+    _impl.update(cur=cur, app=app, app2=app2, mapper=config2.get_routes_mapper(), Request=Request, T=traversal,
                  base=dict(Request.blank('/').environ), vh=traversal.VH_ROOT_KEY)
+
+
+ATTR_KEYS = ('context', 'view_name', 'subpath', 'traversed', 'virtual_root', 'virtual_root_path', 'root')
+
+
+def _aval(v):
+    if isinstance(v, Leaf):
+        return [0, list(v._pos)]
+    if isinstance(v, str):
+        return [1, v]
+    if isinstance(v, (tuple, list)) and all(isinstance(x, str) for x in v):
+        return [2, list(v)]
+    return ['NOT-A-VALUE', repr(v)[:40]]
+
+
+def _run_router(root, o, app_key):
+    cur = _impl['cur']
+    cur.update(root=root, seen=None, attrs=None, matchdict=None)
+    err = None
+    try:
+        body = _impl[app_key](_env(o), lambda status, headers, exc_info=None: None)
+        for _ in body:
+            pass
+    except Exception as e:
+        err = e
+    finally:
+        cur['root'] = None
+    if cur['attrs'] is None:
+        return _exc(err) if err is not None else ['ROUTER-NO-CONTEXT']
+    if app_key == 'app2':
+        want = route_oracle(o)
+        got = None if cur['matchdict'] is None else _md_part(cur['matchdict'])
+        if want != got:
+            return ['ROUTE-MATCHDICT-DIFFERS', want, got]
+    return [7, sorted([k, _aval(v)] for k, v in cur['attrs'].items())]
 
 
 def _tdict(d):
@@ -554,6 +781,10 @@ def _run_op(root, o):
             if via != out:
                 return ['ROUTER-DIFFERS', out, via]
         return out
+    if k == 'router':
+        return _run_router(root, o, 'app')
+    if k == 'route':
+        return _run_router(root, o, 'app2')
     if k in ('api', 'find'):
         res = res_at(root, o['start'])
         try:
@@ -621,11 +852,23 @@ def spec_holds(case, obs, spec):
 FINDING_TRAVERSED = 'C02-traversed-under-vroot'
 
 
+def _as_tdict(o):
+    """an attribute dictionary [7, items] in the shape of a traverser dictionary observation"""
+    if isinstance(o, list) and len(o) == 2 and o[0] == 7:
+        try:
+            d = {k: v[1] for k, v in o[1]}
+            return [0] + [d[k] for k in ATTR_KEYS]
+        except Exception:
+            return o
+    return o
+
+
 def _is_traversed_finding(op, o, s):
+    o, s = _as_tdict(o), _as_tdict(s)
     """exactly: virtual root present, both sides a dictionary, every field as specified except
     `traversed`, which is the specified value followed by the next len(vroot_tuple) segments
     of the unconsumed rest (view-name segment first)"""
-    if op['k'] != 'req' or op['vroot'] is None:
+    if op['k'] not in ('req', 'router', 'route') or op['vroot'] is None:
         return False
     if not (isinstance(o, list) and isinstance(s, list) and len(o) == 8 and len(s) == 8 and o[0] == 0 and s[0] == 0):
         return False
@@ -652,25 +895,39 @@ def classify(case, obs, spec):
 
 
 def _ok(o):
+    o = _as_tdict(o)
     return isinstance(o, list) and len(o) == 8 and o[0] == 0
 
 
 def nontrivial(case, obs):
-    consumed = any(_ok(o) and o[4] for o in obs)
-    early = any(_ok(o) and (o[2] != '' or o[6]) for o in obs)
+    ds = [_as_tdict(o) for o in obs if _ok(o)]
+    consumed = any(o[4] for o in ds)
+    early = any((o[2] != '' or o[6]) for o in ds)
     return consumed and early
 
 
 def kinds(case, obs):
     ks = []
+    if case.get('tag') == 'sweep':
+        ks.append('sweep-case')
+        ks.append('sweep-ops:%d' % len(case['ops']))
+        return ks + sorted(set('sweep-out:' + ('ok' if _ok(o) else 'other') for o in obs))
     for op, o in zip(case['ops'], obs):
         k = op['k']
+        if k in ('router', 'route'):
+            ks.append('entry:' + k)
+            ks.append('vroot:' + ('absent' if op['vroot'] is None else 'present'))
+            if k == 'route':
+                md = route_oracle(op)
+                ks.append('route:' + ('no-match' if md is None else 'md[%s]' % ','.join(
+                    '%s=%s' % (kk, 'str' if isinstance(v, str) else 'tuple') for kk, v in sorted(md.items()))))
+        o = _as_tdict(o)
         if k == 'req':
             entry = 'pathinfo+router' if op['md'] is None else \
                 'md-' + ('none' if 'traverse' not in op['md'] else 'str' if isinstance(op['md']['traverse'], str) else 'tuple')
             ks.append('entry:' + entry)
             ks.append('vroot:' + ('absent' if op['vroot'] is None else 'present'))
-        else:
+        elif k not in ('router', 'route'):
             ks.append('entry:%s-%s' % (k, 'str' if isinstance(op.get('path', ''), str) else 'tuple') if k in ('api', 'find')
                       else 'entry:' + k)
         if _ok(o):
